@@ -219,6 +219,16 @@ def run_rest(ctx, rep):
     cg = ctx.cg()
     reach = ctx.reachable()
     ev = Evaluator(f)
+    range_check_rules(ctx, rep)
+    rest2(ctx, rep, ev)
+
+
+def range_check_rules(ctx, rep):
+    """R3.4 (shared with C04 as its R4.6): the offset range check precedes every use of offset_to_next"""
+    f = ctx.facts()
+    cg = ctx.cg()
+    reach = ctx.reachable()
+    ev = Evaluator(f)
     # ---- R3.4 range check precedes use
     chk = AP + "input_scanner::sanity_check_offset_next"
     for p in (SCAN + "load_rdh_cru", SCAN + "load_next_rdh_to_filter"):
@@ -260,6 +270,12 @@ def run_rest(ctx, rep):
     except Unsupported as e:
         rep.bad("R3.4", "R3.4|interval", "UNRECOGNISED range check: %s" % e, chk)
 
+
+
+def rest2(ctx, rep, ev):
+    f = ctx.facts()
+    cg = ctx.cg()
+    reach = ctx.reachable()
     # ---- R3.5 filter predicate
     fp = AP + "input_scanner::is_rdh_filter_target"
     RC = AP + "rdh::rdh_cru::RdhCru"
